@@ -14,7 +14,7 @@ BUILTIN_FUNCS = {
     "len", "isinstance", "issubclass", "getattr", "hasattr", "setattr", "set", "frozenset", "list", "tuple", "dict",
     "bool", "str", "repr", "sorted", "zip", "map", "any", "all", "min", "max", "sum", "range", "type", "id",
     "callable", "object", "super", "iter", "next", "int", "enumerate", "reversed", "bytes", "property", "print",
-    "filter", "format", "vars", "dir", "hash",
+    "filter", "format", "vars", "dir", "hash", "delattr",
 }
 BUILTIN_CLASSES = {"str", "bytes", "int", "bool", "dict", "list", "tuple", "set", "frozenset", "object", "type", "float"}
 
@@ -482,7 +482,7 @@ class Interp(Engine):
                 fr.cur_exc = fr0.cur_exc
                 if hasattr(fr0, "globals_declared"):
                     fr.globals_declared = fr0.globals_declared
-            comps = set(start.heap) | {"$list", "$set", "$dict", "$hist", "$G"}
+            comps = set(start.heap) | {"$list", "$set", "$dict", "$hist", "$G", "$attrs"}
             for cname in list(comps):
                 if cname == "$alloc":
                     continue
